@@ -7,7 +7,7 @@ OUT=$D/seeded/RESULTS.md
 echo "| seed | check | exit | first violation |" > $OUT.tmp; echo "|---|---|---|---|" >> $OUT.tmp
 git -C $WT checkout -q --detach $(git -C /repo rev-parse HEAD)
 for d in $D/seeded/*/; do
-  s=$(basename $d); prop=${s%-*}
+  s=$(basename $d); prop=${s%%-*}
   checks=$prop
   extra=$(grep "^$s " $D/tools/seed_extra.txt 2>/dev/null | cut -d' ' -f2-)
   [ -n "$extra" ] && checks="$extra"
